@@ -108,17 +108,40 @@ def hist_shrinks(c):
             yield mk(c['op'], '|'.join(rest), tag=c.get('tag', ''))
 
 
+class EcdsaSignSpy:
+    """stands in for the ctypes library object of bitcoin.core.key while one signature is made; records the DER
+    bytes ECDSA_sign wrote (before the library's low-S normalisation).  If the library stops calling
+    `_ssl.ECDSA_sign`, nothing is recorded and the signFinish comparison is skipped (no alarm)."""
+    def __init__(self, lib):
+        self._lib = lib
+        self.raw = None
+
+    def __getattr__(self, name):
+        return getattr(self._lib, name)
+
+    def ECDSA_sign(self, typ, dgst, dlen, buf, siglen_ref, key):
+        r = self._lib.ECDSA_sign(typ, dgst, dlen, buf, siglen_ref, key)
+        try:
+            self.raw = bytes(buf.raw[:siglen_ref._obj.value])
+        except Exception:  # noqa: BLE001
+            self.raw = None
+        return r
+
+
 class C13(Prop):
     id = 'C13'
     title = 'Keys: pubkey derivation, WIF round trip, ECDSA sign/verify match secp256k1'
-    lean_targets = ['BtcVerif.Props.C13']
     table_groups = ['ChainAddr']
+    lean_targets = ['BtcVerif.Props.C13', 'BtcVerif.Props.Coherence']
     theorems = ['BtcVerif.C13.' + t for t in (
         'p_eq', 'p_eq_sec2', 'n_eq', 'n_lt_p', 'p_mod_4', 'G_on_curve', 'G_onCurve', 'n_mul_G', 'n_pred_mul_G',
         'two_mul_G', 'der_roundtrip', 'der_strict', 'derEncode_injective', 'compareBigEndian_sign',
         'maxModHalfOrder_eq', 'isLowDer_iff_encode', 'isLowDer_iff', 'n_odd', 'lowS_spec', 'signatureToLowS_spec',
-        'sign_spec', 'sign_hash_length', 'wifPayload_eq_spec', 'wif_roundtrip', 'wif_roundtrip_chains',
-        'wif_wrong_version', 'pub_eq_reference', 'verify_sign', 'verify_lowS_twin')]
+        'signatureToLowS_reference', 'signatureToLowS_unparsed', 'sign_spec', 'sign_hash_length',
+        'wifPayload_eq_spec', 'wif_roundtrip', 'wif_roundtrip_chains', 'wif_wrong_version', 'pub_eq_reference',
+        'decode_encode_point', 'decode_some_iff_uncompressed', 'decode_compressed_sound', 'encode_decode_compressed',
+        'decode_bad_tag', 'verify_sign', 'verify_lowS_twin')] + [
+        'BtcVerif.Coherence.wif_text_roundtrip', 'BtcVerif.Coherence.wif_text_roundtrip_chains']
     anchors = [('bitcoin/core/key.py', 'CECKey.set_secretbytes'), ('bitcoin/core/key.py', 'CECKey.get_pubkey'),
                ('bitcoin/core/key.py', 'CECKey.set_compressed'), ('bitcoin/core/key.py', 'CECKey.sign'),
                ('bitcoin/core/key.py', 'CECKey.signature_to_low_s'), ('bitcoin/core/key.py', 'CECKey.verify'),
@@ -130,7 +153,14 @@ class C13(Prop):
                     'order n is not proved (constants, G on curve, n*G = inf are kernel-checked)',
                     'OpenSSL arithmetic, DER codec and random nonces are outside the model: covered only by this run',
                     'harness-local base58check encoder for the text level of WIF']
-    assumptions = ['signatures given to verify are strict DER; public keys are 33 or 65 bytes']
+    assumptions = ['signatures given to verify are strict DER; public keys are 33 or 65 bytes',
+                   'T2 ONLY (no theorem about the library): public key = k*G (pub_eq_reference and wifPayload_eq_spec are '
+                   'definitional, rfl); verify(pub, digest, sig) = reference verification; produced signatures satisfy '
+                   'the verification equation (verify_sign is abstract, not instantiated on the Jacobian formulas); '
+                   'is_fullyvalid = reference decode (the reference decode itself has a Spec: decode_some_iff_uncompressed, '
+                   'decode_compressed_sound; completeness for 02/03 UNPROVED); verify_lowS_twin_concrete UNPROVED',
+                   'theorems about CECKey.sign / signature_to_low_s hold under the OpenSSL contract: ECDSA_sign returns the '
+                   'strict DER of some (r, s), r < 2^256, 0 < s < n; d2i/i2d are the strict DER codec']
     rule = ('secrets {1,2,3,n-1,n-2,n-3,n/2,..., leading-zero, random} x both compressions x 4 chains (key + WIF); '
             'signatures over digests {00,ff,n,n+1,>=n,random}; 16-variant verification matrix per signature; '
             'Lean-signed signatures verified by the library; 33/65-byte keys on/off curve, hybrid, bad prefix, x>=p; '
@@ -188,6 +218,9 @@ class C13(Prop):
             hs = ds[:6] if j < 2 * nshards else [ds[j % len(ds)], bytes(rng.randrange(256) for _ in range(32))]
             for h in hs:
                 yield mk('c13.sign', sb, comp, h.hex(), tag='sign')
+            if j < 2 * nshards:
+                for ln in (0, 1, 31, 33, 64):
+                    yield mk('c13.signlen', sb, comp, bytes(rng.randrange(256) for _ in range(ln)).hex(), tag='sign-length')
             h = hs[-1]
             h2 = bytes(rng.randrange(256) for _ in range(32))
             for v in range(NVARIANTS):
@@ -343,17 +376,24 @@ class C13(Prop):
                     return '%s,%d,%s' % (bytes(k)[0:32].hex(), 1 if k.is_compressed else 0, bytes(k.pub).hex())
                 return guarded(f)
             if op == 'c13.sign':
-                c['aux'] = ['00']
+                c['aux'] = ['00', '-']
 
                 def f():
                     k = self._secret(a[0], a[1])
                     h = bytes.fromhex(a[2])
-                    sig = k.sign(h)
-                    c['aux'] = [bytes(sig).hex()]
+                    spy = EcdsaSignSpy(K._ssl)
+                    K._ssl = spy                      # observe what ECDSA_sign returned before the low-S step
+                    try:
+                        sig = k.sign(h)
+                    finally:
+                        K._ssl = spy._lib
+                    c['aux'] = [bytes(sig).hex(), spy.raw.hex() if spy.raw else '-']
                     if k.pub.verify(h, sig) is not True:
                         return 'bad:own-signature-not-verified'
                     return 'ok'
                 return guarded(f)
+            if op == 'c13.signlen':
+                return guarded(lambda: 'ok:' + bytes(self._secret(a[0], a[1]).sign(bytes.fromhex(a[2]))).hex())
             if op == 'c13.matrix':
                 c['aux'] = ['00', '00', '00']
 
@@ -393,7 +433,9 @@ class C13(Prop):
         if op == 'c13.hist':
             return '\t'.join(['c13.hist', a[0]] + list(c.get('aux', [])))
         if op == 'c13.sign':
-            return '\t'.join(['c13.signcheck', a[0], a[1], a[2]] + list(c.get('aux', ['00'])))
+            return '\t'.join(['c13.signcheck', a[0], a[1], a[2]] + list(c.get('aux', ['00', '-'])))
+        if op == 'c13.signlen':
+            return '\t'.join(['c13.signFinish', a[2] or '', '00'])
         if op == 'c13.matrix':
             return '\t'.join(['c13.verifyDer'] + list(c.get('aux', ['00', '00', '00'])))
         return c.line
